@@ -122,6 +122,7 @@ def showRes : RefreshRes → String
 def step (s : State) (t : List String) : State × String :=
   match t with
   | ["reset", seeds] => (init (intList seeds), "ok")
+  | "note" :: _ => (s, "ok")
   | "upd" :: full :: rest =>
     match parseResp rest with
     | some r =>
@@ -153,7 +154,9 @@ def step (s : State) (t : List String) : State × String :=
     match parseResp rest with
     | some r =>
       let o := apiLeader (refreshWith r) s (int! tp) (int! p)
-      (o.1, (match o.2 with | .res l => showLeader l | .err e => s!"E{e}") ++ s!" | {dump o.1}")
+      (o.1, (match o.2 with
+             | .res l => showLeader l
+             | .err e => if e = 3 then "UNK" else if e = 5 then "LNA" else s!"E{e}") ++ s!" | {dump o.1}")
     | none => (s, "bad-op")
   | ["deregseed"] => let s' := deregisterSeed s; (s', dump s')
   | ["deregknown", i] => let s' := deregisterKnown s (int! i); (s', dump s')
@@ -180,7 +183,7 @@ def step (s : State) (t : List String) : State × String :=
       let lv := (live.splitOn "/").map intList
       let o := newClient (fun _ _ => 0) (envOf n lv rs) (full = "1") n (intList seeds)
       match o.1 with
-      | some s' => (s', s!"created e={o.2} | {dump s'}")
+      | some s' => (s', s!"created | {dump s'}")
       | none => (s, s!"failed e={o.2}")
     | none => (s, "bad-op")
   | _ => (s, "bad-op")
